@@ -260,11 +260,13 @@ func TestVerif_C05_globals(t *testing.T) {
 		for _, i := range c05ColdIdx {
 			cold = append(cold, ops[i])
 		}
-		progs := vsched.PairPrograms("C05", zzResetGlobals, cold, seq)
+		// the cheap, broad programs first: a deadline then cuts the first-use programs only
+		var progs []vsched.Program
 		for _, p := range vsched.PairPrograms("C05", c05Warm, ops, seq) {
 			p.Name = "warm/" + p.Name
 			progs = append(progs, p)
 		}
+		progs = append(progs, vsched.PairPrograms("C05", zzResetGlobals, cold, seq)...)
 		c.Note("globals_programs", len(progs))
 		c.Note("written_package_level_variables", zzWrittenGlobals)
 		vsched.RunBounds(c, "globals", progs, bounds)
